@@ -138,6 +138,8 @@ class Eval:
             return
         if isinstance(st, ast.Expr):
             if isinstance(st.value, ast.Call):
+                if isinstance(st.value.func, ast.Name) and st.value.func.id in ("delattr",):
+                    raise Unrecognised("dynamic attribute store %s" % dump(st.value)[:50])
                 self.eval_call(st.value, fr, depth, stmt=True, pathcond=pathcond)
             return
         if isinstance(st, ast.Return):
@@ -257,7 +259,7 @@ class Eval:
     def exec_for(self, st, fr, depth, pathcond):
         it = self.eval(st.iter, fr, depth)
         # unroll loops over a constant tuple (square axes)
-        if is_term(it, "const") and isinstance(it[1], (tuple, list)) and isinstance(st.target, ast.Name) and len(it[1]) <= 4:
+        if is_term(it, "const") and isinstance(it[1], (tuple, list)) and isinstance(st.target, ast.Name) and len(it[1]) <= 16:
             for v in it[1]:
                 fr.env[st.target.id] = ("const", v)
                 self.exec_block(st.body, fr, depth, pathcond)
@@ -285,6 +287,10 @@ class Eval:
                 has_effect = True
             elif isinstance(n, ast.Call) and isinstance(n.func, ast.Attribute) and isinstance(n.func.value, ast.Name) \
                     and n.func.value.id == fr.selfname and not n.func.attr.startswith(("check_", "is_")):
+                has_effect = True
+            elif isinstance(n, ast.Call) and isinstance(n.func, ast.Name) and n.func.id in ("setattr", "delattr", "exec", "eval"):
+                has_effect = True      # dynamic attribute stores: which fields are written is not visible in the statement (constant-tuple loops are unrolled above)
+            elif isinstance(n, ast.Attribute) and n.attr == "__dict__":
                 has_effect = True
         if has_effect:
             raise Unrecognised("loop with stores/returns/self-calls not modelled: for %s in %s" % (dump(st.target), dump(st.iter)))
@@ -380,6 +386,9 @@ class Eval:
         if isinstance(e, ast.Name):
             if e.id in env:
                 return env[e.id]
+            ma = getattr(fr.func.module, "assigns", {}).get(e.id)
+            if isinstance(ma, (ast.Tuple, ast.List)) and ma.elts and all(isinstance(x, ast.Constant) and isinstance(x.value, str) for x in ma.elts):
+                return ("const", tuple(x.value for x in ma.elts))
             return ("global", e.id)
         if isinstance(e, ast.Attribute):
             if isinstance(e.value, ast.Name) and e.value.id == fr.selfname:
@@ -512,6 +521,18 @@ class Eval:
             if is_term(inner, "indexat") or is_term(inner, "sqslice") or is_term(inner, "listof"):
                 return inner
             return ("call", fn.id, (inner,))
+        if isinstance(fn, ast.Name) and fn.id in ("getattr", "setattr") and len(call.args) >= 2 and isinstance(call.args[0], ast.Name) and call.args[0].id == fr.selfname:
+            nm = self.eval(call.args[1], fr, depth)
+            if is_term(nm, "const") and isinstance(nm[1], str):
+                node = ast.Attribute(value=ast.Name(id=fr.selfname, ctx=ast.Load()), attr=nm[1], ctx=ast.Load())
+                ast.copy_location(node, call)
+                if fn.id == "getattr" and len(call.args) == 2:
+                    return self.eval(node, fr, depth)
+                if fn.id == "setattr" and len(call.args) == 3:
+                    node.ctx = ast.Store()
+                    self.assign(node, self.eval(call.args[2], fr, depth), fr, depth, pathcond or [], call)
+                    return NONE
+            raise Unrecognised("dynamic attribute access %s" % dump(call)[:50])
         sc = super_call_info(call)
         if sc is not None:
             cname, xname, m = sc
